@@ -3519,6 +3519,15 @@ impl BytecodeVM {
                 Ok(OpResult::Continue)
             }
 
+            Op::PushNamespaceScope { obj } => {
+                let env = match self.get_reg(obj) {
+                    JsValue::Object(ns) => interp.push_namespace_scope(ns.cheap_clone()),
+                    _ => interp.push_scope(),
+                };
+                self.saved_env_stack.push(env);
+                Ok(OpResult::Continue)
+            }
+
             Op::PopScope => {
                 if let Some(env) = self.saved_env_stack.pop() {
                     interp.pop_scope(env);
